@@ -134,9 +134,9 @@ def shards(tier):
     return out
 
 
-def build_wsdl(program, proto):
+def build_wsdl(program, proto, validator=None):
     b = spec.build(program)
-    app = spec.make_app(b, harness.make_proto(proto), harness.make_proto(proto), name=program.get('name', 'App'))
+    app = spec.make_app(b, harness.make_proto(proto, validator), harness.make_proto(proto), name=program.get('name', 'App'))
     return b, app, drv.published_wsdl(app)
 
 
@@ -411,6 +411,17 @@ def run_shard(shard, only=None):
                         break
             except Exception as e:
                 V('rebuild-raises', type(e).__name__, 'building a second WSDL document from the same interface raised %r' % (e,))
+            # what is published does not depend on how requests are validated (a validating protocol builds its schema
+            # from the application's own document objects before the first WSDL is asked for)
+            for validator in ('lxml', 'soft'):
+                try:
+                    b5, app5, w5 = build_wsdl(program, f['proto'], validator)
+                    if w5 != w:
+                        V('wsdl-depends-on-validator', validator, 'the WSDL of the same application with validator=%r differs from the one with validator=None (%d vs %d bytes)' % (
+                            validator, len(w5), len(w)))
+                        structural(program, w5, res, V)
+                except Exception as e:
+                    V('build', 'validator=%s|%s' % (validator, type(e).__name__), 'application / WSDL cannot be built with validator=%r: %r' % (validator, e))
             w4 = drv.published_wsdl(app)
             if w4 != w:
                 V('nondeterministic-rebuild', 'after-validation-schema', 'the WSDL built after the validation schema differs from the first (%d vs %d bytes)' % (len(w), len(w4)))
